@@ -22,9 +22,13 @@ NumSites == {"field-read", "field-assign", "field-incr", "nf-assign", "argc-assi
 \* string sites: a string reaches a separator / mode / regex / name position
 StrSites == {"rs", "fs", "subsep", "convfmt", "ofmt", "ors", "ofs", "dyn-regex-match", "dyn-regex-split", "dyn-regex-sub",
              "dyn-regex-matchfn", "inputmode", "outputmode", "getline-file", "close-name", "printf-format", "field-sep-arg",
-             "rs-then-read", "fs-then-read", "operand-fs", "operand-rs", "operand-other"}
+             "rs-then-read", "fs-then-read", "operand-fs", "operand-rs", "operand-other",
+             \* the separator is assigned while a reader made for another KIND of separator (regex, multi-byte character) is active
+             "rs-regex-then-read", "rs-mbchar-then-read", "fs-regex-then-read"}
 OtherSites == {"recursion", "mutual-recursion", "deep-expression", "many-fields", "long-record", "recursion-with-locals",
-               "runaway-recursion-with-locals", "field-values", "getline-other-file-wider", "getline-var-in-csv"}
+               "runaway-recursion-with-locals", "field-values", "getline-other-file-wider", "getline-var-in-csv",
+               \* a format that was used correctly before is used again with fewer / other arguments (translations are memoised)
+               "format-again-with-fewer-args", "format-again-with-other-kinds"}
 
 \* numeric value classes: sign, magnitude relative to the field limit and the integer ranges, fractional or not
 NumVals == {"-huge", "-int64", "-int32", "-1", "-0.5", "0", "0.5", "1", "limit-1", "limit", "limit+1", "int32", "int32+1", "int53",
